@@ -464,9 +464,12 @@ impl Family for C13Thr {
       ("waits", Json::Arr((0..n).map(|_| Json::Int(rng.below(6) as i64)).collect())),
       ("leave_waits", Json::Arr((0..n).map(|_| Json::Int(rng.below(6) as i64)).collect())),
       ("share_observable", Json::Bool(rng.below(2) == 0)),
-      ("stay", Json::Arr((0..n).map(|_| Json::Bool(emit_during_leave && rng.below(2) == 0)).collect())),
+      ("stay", Json::Arr((0..n).map(|k| Json::Bool(emit_during_leave && (rng.below(2) == 0 || k == 0))).collect())),
       ("emit_during_leave", Json::Bool(emit_during_leave)),
       ("emitter_wait", Json::Int(rng.below(8) as i64)),
+      // the emitter ends with a terminal; a further subscriber arrives while the emitter is at work
+      ("emitter_terminal", Json::str(if emit_during_leave { *rng.pick(&["none", "complete", "error", "error"]) } else { "none" })),
+      ("late_joiner_wait", Json::Int(if emit_during_leave && rng.below(3) != 0 { rng.below(10) as i64 } else { -1 })),
     ])
   }
   fn exec(&self, w: &Json, cfg: RunCfg) -> RunOut {
@@ -489,6 +492,14 @@ impl Family for C13Thr {
       stay.iter_mut().for_each(|s| *s = false);
     }
     let emitter_wait = if w.get("emitter_wait").is_some() { w.i("emitter_wait").clamp(0, 30) } else { 0 };
+    let emitter_terminal: Option<Step> = match w.get("emitter_terminal").and_then(|x| x.as_str()) {
+      Some("complete") if emit_during_leave => Some(Step::C),
+      Some("error") if emit_during_leave => Some(Step::E(9)),
+      _ => None,
+    };
+    let late_wait = if emit_during_leave && w.get("late_joiner_wait").is_some() { w.i("late_joiner_wait").clamp(-1, 30) } else { -1 };
+    let rec_late = Recorder::new();
+    let (rec_late2, et2) = (rec_late.clone(), emitter_terminal.clone());
     let stay2 = stay.clone();
     let recs: Vec<Recorder> = (0..n).map(|_| Recorder::new()).collect();
     let src_log = Arc::new(Mutex::new(SrcLog::default()));
@@ -530,6 +541,22 @@ impl Family for C13Thr {
           }
           hot.step_all(&Step::N(12));
           hot.step_all(&Step::N(13));
+          if let Some(t) = &et2 {
+            hot.step_all(t);
+          }
+        }));
+      }
+      let late_sub: Arc<Mutex<Option<Subscription<'static>>>> = Arc::new(Mutex::new(None));
+      let late_sub2 = late_sub.clone();
+      if late_wait >= 0 {
+        let (conn, so, rec) = (conn.clone(), shared_obs.clone(), rec_late2.clone());
+        hs.push(rt::spawn_harness("late-joiner", move || {
+          for _ in 0..late_wait {
+            rt::probe("c13-late-joiner-wait");
+          }
+          let o = if share { so } else { conn.observable() };
+          let s = rec.subscribe(&o);
+          *late_sub2.lock().unwrap() = Some(s);
         }));
       }
       for i in 0..recs2.len() {
@@ -550,7 +577,10 @@ impl Family for C13Thr {
       for h in hs {
         let _ = h.join();
       }
-      // the ones that stayed leave at the end
+      // the ones that stayed leave at the end, the late joiner too
+      if let Some(s) = late_sub.lock().unwrap().take() {
+        s.unsubscribe();
+      }
       for i in 0..recs2.len() {
         if stay2[i] {
           let s = subs.lock().unwrap()[i].clone();
@@ -571,9 +601,24 @@ impl Family for C13Thr {
       for (i, r) in recs.iter().enumerate() {
         let got: Vec<Ev> = r.events().into_iter().map(|e| e.ev).collect();
         history.push(format!("subscriber {}: {}", i, got.iter().map(|e| e.show()).collect::<Vec<_>>().join(" ")));
-        let all: Vec<Ev> = if emit_during_leave { vec![10, 11, 12, 13] } else { vec![10, 11] }.into_iter().map(|x| Ev::Next(Val::Int(x))).collect();
+        let mut all: Vec<Ev> = if emit_during_leave { vec![10, 11, 12, 13] } else { vec![10, 11] }.into_iter().map(|x| Ev::Next(Val::Int(x))).collect();
+        match &emitter_terminal {
+          Some(Step::C) => all.push(Ev::Complete),
+          Some(Step::E(e)) => all.push(Ev::Error(*e)),
+          _ => {}
+        }
         // one that stayed sees everything; one that left while 12, 13 were emitted sees a prefix
-        let ok = if stay[i] || !emit_during_leave { got == all } else { got.len() >= 2 && all.starts_with(&got) };
+        // a leaver whose unsubscribe call is in progress may miss items and still be handed the
+        // terminal (the callbacks are released one after the other): its items are a prefix, an
+        // optional terminal is the emitter's and comes last
+        let ok = if stay[i] || !emit_during_leave {
+          got == all
+        } else {
+          let items: Vec<Ev> = got.iter().filter(|e| !e.is_terminal()).cloned().collect();
+          let all_items: Vec<Ev> = all.iter().filter(|e| !e.is_terminal()).cloned().collect();
+          let terms: Vec<&Ev> = got.iter().filter(|e| e.is_terminal()).collect();
+          items.len() >= 2 && all_items.starts_with(&items) && terms.len() <= 1 && terms.first().map_or(true, |t| Some(*t) == all.last() && got.last() == Some(*t))
+        };
         if !ok {
           v.push(Violation::new(
             "delivery-differs",
@@ -586,6 +631,36 @@ impl Family for C13Thr {
               if stay[i] { "stayed" } else { "left" },
               got.iter().map(|e| e.show()).collect::<Vec<_>>().join(" ")
             ),
+          ));
+        }
+      }
+      // judged only if somebody stays throughout: once the count has dropped to zero the connection is
+      // gone and what a newcomer gets is not asserted (DESIGN 4.7)
+      if late_wait >= 0 && stay.iter().any(|s| *s) {
+        // the subscriber that arrives while the emitter is at work: replay owes it the complete
+        // sequence from the beginning (each item once, in order, then the terminal if there was
+        // one); ref_count a gap-free rest of it
+        let got: Vec<Ev> = rec_late.events().into_iter().map(|e| e.ev).collect();
+        history.push(format!("late joiner: {}", got.iter().map(|e| e.show()).collect::<Vec<_>>().join(" ")));
+        let mut all: Vec<Ev> = vec![10, 11, 12, 13].into_iter().map(|x| Ev::Next(Val::Int(x))).collect();
+        match &emitter_terminal {
+          Some(Step::C) => all.push(Ev::Complete),
+          Some(Step::E(e)) => all.push(Ev::Error(*e)),
+          _ => {}
+        }
+        let ok = if kind == "replay" {
+          // after a terminal the connection has ended: a joiner that comes later may find it gone
+          // (reconnection is not asserted) - then it sees nothing; otherwise the whole sequence
+          got == all || (emitter_terminal.is_some() && got.is_empty())
+        } else {
+          // ref_count: a gap-free rest of the sequence (possibly nothing)
+          all.ends_with(&got)
+        };
+        if !ok {
+          v.push(Violation::new(
+            "delivery-differs",
+            blame,
+            format!("a subscriber arrived while the source emitted 12, 13{}; it received [{}]", match &emitter_terminal { Some(t) => format!(", {}", t.show()), None => String::new() }, got.iter().map(|e| e.show()).collect::<Vec<_>>().join(" ")),
           ));
         }
       }
@@ -607,5 +682,115 @@ impl Family for C13Thr {
       fp = fp.wrapping_mul(0x100000001B3) ^ fnv(h);
     }
     RunOut { res, violations: v, fingerprint: fp, invalid: false, reach: vec![], history }
+  }
+}
+
+
+// ================================================================================================
+// the first subscriber ends while it is still being registered
+
+/// `source.ref_count()/replay().observable().take_until(trigger)` over a cold source that emits
+/// synchronously inside the first subscribe and fires the trigger itself at some position: the
+/// first subscriber ends while the connectable is still registering it. A second subscriber may
+/// come and go afterwards. Judged: at most one source subscription; once every subscriber has
+/// left, the source is stopped (its observer sees is_subscribed()==false); the first subscriber
+/// gets a prefix of the items emitted before the trigger, then exactly one complete.
+pub struct C13Reg;
+
+impl Family for C13Reg {
+  fn name(&self) -> &'static str {
+    "c13-first-subscriber-ends-while-registering"
+  }
+  fn threaded(&self) -> bool {
+    false
+  }
+  fn gen(&self, rng: &mut Rng, _tier: Tier) -> Json {
+    let n = rng.range(0, 4) as i64;
+    Json::obj(vec![
+      ("kind", Json::str(*rng.pick(&["ref_count", "replay"]))),
+      ("n_items", Json::Int(n)),
+      ("fire_after", Json::Int(rng.below(n as u64 + 1) as i64)),
+      ("source_ends", Json::str(*rng.pick(&["open", "open", "complete", "error"]))),
+      ("polite", Json::Bool(rng.below(2) == 0)),
+      ("second_subscriber", Json::Bool(rng.below(2) == 0)),
+      ("share_observable", Json::Bool(rng.below(2) == 0)),
+    ])
+  }
+  fn exec(&self, w: &Json, cfg: RunCfg) -> RunOut {
+    let kind = w.s("kind");
+    let ends = w.s("source_ends");
+    let (n, fire_after) = (w.i("n_items"), w.i("fire_after"));
+    if !["ref_count", "replay"].contains(&kind.as_str()) || !["open", "complete", "error"].contains(&ends.as_str()) || n < 0 || n > 6 || fire_after < 0 || fire_after > n {
+      return RunOut::invalid();
+    }
+    let (polite, second, share) = (w.b("polite"), w.b("second_subscriber"), w.b("share_observable"));
+    let (rec_a, rec_b) = (Recorder::new(), Recorder::new());
+    // (source subscriptions, source observer still subscribed after everybody left)
+    let snap: Arc<Mutex<(usize, bool)>> = Arc::new(Mutex::new((0, false)));
+    let (ra, rb, snap2, kind2, ends2) = (rec_a.clone(), rec_b.clone(), snap.clone(), kind.clone(), ends.clone());
+    let res = rt::run(cfg, move || {
+      let trigger = HotSource::new();
+      let subs_made = Arc::new(Mutex::new(0usize));
+      let src_obs: Arc<Mutex<Vec<Observer<'static, Val>>>> = Arc::new(Mutex::new(Vec::new()));
+      let (trig2, sm2, so2, ends3) = (trigger.clone(), subs_made.clone(), src_obs.clone(), ends2.clone());
+      let source: Observable<'static, Val> = Observable::create(move |s: Observer<'static, Val>| {
+        *sm2.lock().unwrap() += 1;
+        so2.lock().unwrap().push(s.clone());
+        for i in 0..n {
+          if i == fire_after {
+            trig2.step_all(&Step::N(1));
+          }
+          if polite && !s.is_subscribed() {
+            return;
+          }
+          s.next(Val::Int(20 + i));
+        }
+        if fire_after == n {
+          trig2.step_all(&Step::N(1));
+        }
+        match ends3.as_str() {
+          "complete" => s.complete(),
+          "error" => s.error(mk_err(4)),
+          _ => {}
+        }
+      });
+      let conn = if kind2 == "ref_count" { Conn::RefCount(source.ref_count()) } else { Conn::Replay(source.replay()) };
+      let shared = conn.observable();
+      let get = |c: &Conn| if share { shared.clone() } else { c.observable() };
+      let sub_a = ra.subscribe(&get(&conn).take_until(trigger.observable()));
+      if second {
+        let sub_b = rb.subscribe(&get(&conn));
+        sub_b.unsubscribe();
+      }
+      sub_a.unsubscribe();
+      let alive = src_obs.lock().unwrap().iter().any(|o| o.is_subscribed());
+      *snap2.lock().unwrap() = (*subs_made.lock().unwrap(), alive);
+    });
+    let blame = kind.as_str();
+    let mut v = Vec::new();
+    let a: Vec<Ev> = rec_a.events().into_iter().map(|e| e.ev).collect();
+    let b: Vec<Ev> = rec_b.events().into_iter().map(|e| e.ev).collect();
+    let show = |x: &[Ev]| x.iter().map(|e| e.show()).collect::<Vec<_>>().join(" ");
+    let (subs_made, alive) = *snap.lock().unwrap();
+    let what = format!("{} over a cold source of {} item(s) that fires the take_until trigger of its first subscriber after item {} and then {}", kind, n, fire_after, match ends.as_str() { "open" => "stays open", "complete" => "completes", _ => "fails" });
+    let history = vec![what.clone(), format!("first subscriber: [{}]", show(&a)), format!("second subscriber: [{}]", show(&b)), format!("source subscriptions: {}, still subscribed after everybody left: {}", subs_made, alive)];
+    if let Some(o) = outcome_violation(&res, blame) {
+      v.push(o);
+    } else {
+      if subs_made > 1 {
+        v.push(Violation::new("two-source-subscriptions", blame, format!("{}: the source was subscribed {} times", what, subs_made)));
+      }
+      if alive {
+        v.push(Violation::new("source-not-stopped", blame, format!("{}: every subscriber has left, yet the source's observer still sees is_subscribed()==true (first subscriber saw [{}])", what, show(&a))));
+      }
+      // first subscriber: items emitted before the trigger (a prefix of them), then one complete
+      let before: Vec<Ev> = (0..fire_after).map(|i| Ev::Next(Val::Int(20 + i))).collect();
+      let items: Vec<Ev> = a.iter().filter(|e| !e.is_terminal()).cloned().collect();
+      let terms = a.iter().filter(|e| e.is_terminal()).count();
+      if !before.starts_with(&items) || terms != 1 || a.last() != Some(&Ev::Complete) {
+        v.push(Violation::new("delivery-differs", blame, format!("{}: its first subscriber received [{}]", what, show(&a))));
+      }
+    }
+    RunOut { fingerprint: crate::seq::fp(&history), res, violations: v, invalid: false, reach: vec![], history }
   }
 }
